@@ -25,6 +25,11 @@ type E_{T} struct {
 	z int
 }
 
+type EP_{T} struct {
+	*{T}
+	z int
+}
+
 type I_{T} interface {
 	get() string
 	setv(int) string
@@ -81,6 +86,9 @@ var contexts = []context{
 	{"method-expr", false, "", `a := new_{T}(1); f := {T}.setv; r := f(a, {K}); h := (*{T}).setp; h(&a, {K1}); return r + "|" + d_{T}(a)`},
 	{"value-receiver", false, "", `a := new_{T}(1); r := a.setv({K}); pa := &a; r2 := pa.setv({K1}); return r + "|" + r2 + "|" + d_{T}(a)`},
 	{"value-receiver-iface", false, "", `a := new_{T}(1); var i I_{T} = a; r := i.setv({K}); mut_{T}(&a, {K1}); return r + "|" + i.get() + "|" + d_{T}(a)`},
+	{"value-receiver-iface-holds-pointer", false, "", `a := new_{T}(1); var i I_{T} = &a; r := i.setv({K}); r2 := i.setv({K1}); return r + "|" + r2 + "|" + i.get() + "|" + d_{T}(a)`},
+	{"value-receiver-iface-holds-pointer-mval", false, "", `a := new_{T}(1); var i I_{T} = &a; f := i.setv; mut_{T}(&a, {K1}); r := f({K}); return r + "|" + d_{T}(a)`},
+	{"value-receiver-iface-mexpr", false, "", `a := new_{T}(1); f := I_{T}.setv; r := f(&a, {K}); r2 := f(a, {K1}); return r + "|" + r2 + "|" + d_{T}(a)`},
 	{"ptr-receiver-iface", true, "", `a := new_{T}(1); var i PI_{T} = &a; i.setp({K}); return d_{T}(a)`},
 	{"embedded-receivers", false, "struct", `e := E_{T}{{T}: new_{T}(1)}; r := e.setv({K}); before := d_{T}(e.{T}); e.setp({K1}); e2 := e; e2.setp({K}); return r + "|" + before + "|" + d_{T}(e.{T}) + "|" + d_{T}(e2.{T}) + "|" + e.get()`},
 	{"closure-after-copy", false, "", `a := new_{T}(1); b := a; f := func() string { return d_{T}(b) }; mut_{T}(&a, {K}); return f() + "|" + d_{T}(a)`},
@@ -93,6 +101,11 @@ var contexts = []context{
 	{"compare", false, "cmp", `a := new_{T}(1); b := a; r1 := a == b; mut_{T}(&b, {K}); r2 := a == b; c := new_{T}(1); var i, j interface{} = a, c; return btoa(r1) + btoa(r2) + btoa(a == c) + btoa(i == j) + btoa(a != b)`},
 	{"package-var", false, "", `g_{T} = new_{T}(3); b := g_{T}; mut_{T}(&g_{T}, {K}); c := g_{T}; mut_{T}(&c, {K1}); return d_{T}(b) + "|" + d_{T}(g_{T}) + "|" + d_{T}(c)`},
 	{"package-var-pointer", true, "", `g_{T} = new_{T}(3); p := &g_{T}; mut_{T}(p, {K}); q := &g_{T}; return d_{T}(g_{T}) + btoa(p == q)`},
+	{"embedded-pointer-promoted-address", true, "innerstruct", `a, b := new_{T}(1), new_{T}(2); e := EP_{T}{{T}: &a}; pin := &e{IN}; e.{T} = &b; mut_{INT}(pin, 0); return d_{T}(a) + "|" + d_{T}(b) + btoa(pin == &a{IN}) + btoa(pin == &e{IN})`},
+	{"embedded-pointer-leaf-address", true, "leaffield", `a, b := new_{T}(1), new_{T}(2); e := EP_{T}{{T}: &a}; pl := &e{LF}; e.{T} = &b; *pl = {LFV}; same := pl == &a{LF}; pl2 := &e{LF}; return d_{T}(a) + "|" + d_{T}(b) + btoa(same) + btoa(pl2 == &b{LF}) + btoa(pl == pl2)`},
+	{"embedded-pointer-leaf-address-var", true, "leaffield", `a, b := new_{T}(1), new_{T}(2); pe := &EP_{T}{{T}: &a}; pl := &pe{LF}; pe.{T} = &b; *pl = {LFV}; return d_{T}(a) + "|" + d_{T}(b)`},
+	{"embedded-pointer-method-value", true, "struct", `a, b := new_{T}(1), new_{T}(2); e := EP_{T}{{T}: &a}; f := e.setp; g := e.setv; e.{T} = &b; f({K}); r := g({K1}); return r + "|" + d_{T}(a) + "|" + d_{T}(b)`},
+	{"embedded-pointer-copy", false, "struct", `a := new_{T}(1); e := EP_{T}{{T}: &a}; e2 := e; c := *e2.{T}; mut_{T}(e.{T}, {K}); return d_{T}(a) + "|" + d_{T}(*e2.{T}) + "|" + d_{T}(c)`},
 	{"inner-copy", false, "inner", `a := new_{T}(1); in := a{IN}; mut_{T}(&a, {K}); a2 := a; a2{IN} = in; return d_{INT}(in) + "|" + d_{T}(a) + "|" + d_{T}(a2)`},
 	{"inner-pointer", true, "inner", `a := new_{T}(1); pin := &a{IN}; b := a; mut_{T}(&a, {K}); mut_{INT}(pin, 0); return d_{INT}(*pin) + "|" + d_{T}(a) + "|" + d_{T}(b) + btoa(pin == &a{IN})`},
 	{"pointer-alias", true, "", `a := new_{T}(1); p := &a; q := p; mut_{T}(p, {K}); mut_{T}(q, {K1}); return d_{T}(a) + btoa(p == q) + btoa(p == &a)`},
